@@ -555,8 +555,25 @@ fn judge_roundtrip(c: &Case, packets: &[Vec<u8>], stats: &mut BTreeMap<&'static 
 // Hostile packets
 // ---------------------------------------------------------------------------------------------
 
+/// Panic site for signatures: `/repo/`-relative for the code under test, `dep:<crate-version>/src/..`
+/// for a dependency reached with the remote's bytes (machine-specific registry prefix removed).
+fn stable_site(p: &vmon::PanicInfo) -> String {
+    if p.in_repo() {
+        return p.site();
+    }
+    match p.location.find("/registry/src/") {
+        Some(i) => {
+            let rest = &p.location[i + "/registry/src/".len()..];
+            format!("dep:{}", rest.split_once('/').map(|x| x.1).unwrap_or(rest))
+        }
+        None => p.location.clone(),
+    }
+}
+
+const EXOTIC_TYPES: &[u16] = &[250, 249, 24, 46, 41, 47, 50, 48, 43, 64, 65, 257, 35, 6, 33, 52, 37, 44, 13, 15, 2, 5, 12, 28, 99, 255, 251, 252, 0, 65535];
+
 fn hostile_packet(rng: &mut Rng, seed_packets: &[Vec<u8>]) -> (Vec<u8>, &'static str) {
-    match rng.below(7) {
+    match rng.below(8) {
         0 => {
             let n = rng.usize(600);
             (rng.bytes(n), "random")
@@ -590,6 +607,39 @@ fn hostile_packet(rng: &mut Rng, seed_packets: &[Vec<u8>]) -> (Vec<u8>, &'static
             let mut p = a[..rng.usize(a.len() + 1)].to_vec();
             p.extend_from_slice(&b[rng.usize(b.len() + 1)..]);
             (p, "spliced")
+        }
+        5 => {
+            // records of types with elaborate RDATA parsers, RDLENGTH unrelated to what follows
+            let mut p = vec![];
+            let an = rng.below(2) as u16;
+            let ar = 1 + rng.below(3) as u16;
+            p.extend_from_slice(&(rng.next_u32() as u16).to_be_bytes());
+            p.extend_from_slice(&[0x84, 0x00, 0, 0]);
+            p.extend_from_slice(&an.to_be_bytes());
+            p.extend_from_slice(&[0, 0]);
+            p.extend_from_slice(&ar.to_be_bytes());
+            for k in 0..(an + ar) {
+                let owner = if k < an { "_p2p._udp.local" } else { "x.local" };
+                if rng.chance(1, 3) {
+                    p.push(0);
+                } else {
+                    enc_name(&mut p, owner);
+                }
+                p.extend_from_slice(&rng.pick(EXOTIC_TYPES).to_be_bytes());
+                p.extend_from_slice(&(*rng.pick(&[1u16, 0x8001, 255, 254])).to_be_bytes());
+                p.extend_from_slice(&rng.next_u32().to_be_bytes());
+                let n = rng.usize(40);
+                let body: Vec<u8> = if rng.bool() { rng.bytes(n) } else { (0..n).map(|_| *rng.pick(&[0u8, 0, 0, 1, 0xff, 0xc0, 3])).collect() };
+                let rdlen = match rng.below(4) {
+                    0 => body.len() as u16,
+                    1 => rng.below(4) as u16,
+                    2 => (body.len() as u16).saturating_sub(1 + rng.below(8) as u16),
+                    _ => body.len() as u16 + rng.below(3) as u16,
+                };
+                p.extend_from_slice(&rdlen.to_be_bytes());
+                p.extend_from_slice(&body);
+            }
+            (p, "exotic-rr-types")
         }
         4 => {
             // header only with wild counts + compression pointer games
@@ -752,7 +802,7 @@ pub fn run(args: &Args) -> i32 {
             *kinds.entry(kind).or_default() += 1;
             match catch(|| parse_packet(&p, from)) {
                 Err(pn) => {
-                    check.violation(format!("panic@{}", pn.site()), format!("parse_packet panicked: {}", pn.msg), json!({"kind": kind, "packet_hex": vmon::hex(&p)}));
+                    check.violation(format!("panic@{}", stable_site(&pn)), format!("parse_packet panicked at {}: {}", pn.location, pn.msg), json!({"kind": kind, "packet_hex": vmon::hex(&p)}));
                 }
                 Ok(Ok(parsed)) => {
                     accepted += 1;
